@@ -161,7 +161,24 @@ def gen_interleave(c, rng):
             exp["b0"] = True
         # a flag in between ends nothing: further free values would be ambiguous -> none generated after a flag
     kind = "interleave"
-    if rng.random() < 0.4:
+    if rng.random() < 0.2:
+        # a positional argument in one member, an open multi-value list in another: one handler gives the free values to the
+        # list; the group asks the members in order, so a positional argument in an EARLIER member takes them (known finding)
+        pos = Arg("s9", None, None, spec="-")
+        pos.init = "none"
+        pos.member = rng.randrange(2)
+        b.member = 1 - pos.member
+        b.multi = True
+        cfg.args = [b, pos] if rng.random() < 0.5 else [pos, b]
+        n = rng.randint(2, 3)
+        vals = [gen.gen_text(rng, argh.elem_of(b.slot), elem=True, small=True) for _ in range(n)]
+        vals = [v for v in vals if not v.startswith("-")] or ["1", "2"]
+        if len(vals) < 2:
+            vals.append("3")
+        words = ["-" + b.short] + vals
+        exp = {b.slot: [argh.conv(argh.elem_of(b.slot), v) for v in vals], "s9": "none"}
+        kind = "positional-vs-open-list"
+    elif rng.random() < 0.4:
         # stale "last argument": a non-multi-value argument of one member is followed by a free value; the other member's
         # multi-value argument was used before -> one handler rejects the free value (unknown), so must the group
         a.multi = False
@@ -266,7 +283,17 @@ def judge(c, results, rep):
     rep.stat("members_%d" % c.meta["nm"])
     for kind, why, words, sid1, sid2, uses in c.meta["runs"]:
         r1, r2 = results[sid1], results[sid2]
-        rep.stat("line." + ("valid" if kind == "valid" else "interleave" if kind == "interleave" else "rule-break"))
+        rep.stat("line." + ("valid" if kind == "valid" else kind if kind in ("interleave", "positional-vs-open-list") else "rule-break"))
+        if kind == "positional-vs-open-list":
+            ok1, ok2 = r1.status == "ok", r2.status == "ok"
+            if not ok1 or argh.parse_dump("s9", r1.slots.get("s9", "?")) != "none":
+                rep.viol("single-rejects-valid|%s" % kind, "single: %s %s %r argv=%r" % (r1.status, r1.ewhat, r1.slots, words), [texts[sid1], texts[sid2]])
+            elif ok1 != ok2 or r1.slots != r2.slots:
+                rep.viol("group-dispatch|positional-in-earlier-member-takes-free-values", "single %r | group %s %s %r | argv=%r" % (
+                    r1.slots, r2.status, r2.ewhat, r2.slots, words), [texts[sid1], texts[sid2]])
+            else:
+                rep.stat("positional_vs_open_list_same")
+            continue
         if kind not in ("valid", "interleave"):
             rep.stat("break." + kind)
         if c.meta["nm"] >= 2 and len(words) >= 2:
